@@ -102,6 +102,9 @@ def c10(run, ctx):
 def c11(run, ctx):
     fam_iter.replace_rule(run, ctx)
     fam_iter.replacer_rule(run, ctx)
+    # the two loops of try_replacen iterate with find_iter / captures_iter: both must be the same state machine
+    fam_iter.iter_state_machine(run, ctx, "<Matches as Iterator>::next", "find_iter")
+    fam_iter.iter_state_machine(run, ctx, "<CaptureMatches as Iterator>::next", "captures_iter")
 
 
 PROPS["C09"] = {"fn": c09, "level": "other",
@@ -226,6 +229,8 @@ def c01(run, ctx):
     fam_enc.wrap_tree_rule(run, ctx)
     fam_parse.backref_registration(run, ctx)
     fam_tmpl.atomic_and_group_arms(run, ctx)
+    fam_tmpl.compile_lookaround_dispatch(run, ctx)
+    fam_xfer.analyzer_rule(run, ctx)
 
 
 def c02(run, ctx):
@@ -235,11 +240,18 @@ def c02(run, ctx):
     fam_tmpl.builder_helpers(run, ctx)
     fam_vm.own_state(run, ctx)
     fam_vm.state_methods(run, ctx)
+    fam_vm.backtrack_cut(run, ctx)
+    fam_vm.atomic_arms(run, ctx)
     fam_parse.group_counting(run, ctx)
     fam_xfer.analyzer_rule(run, ctx)
 
 
 def c03(run, ctx):
+    fam_tmpl.compile_repeat(run, ctx)
+    fam_tmpl.compile_alt(run, ctx)
+    fam_vm.repeat_arms(run, ctx)
+    fam_vm.split_jmp_arms(run, ctx)
+    fam_tmpl.atomic_and_group_arms(run, ctx)
     fam_tmpl.visit_delegation_gate(run, ctx)
     fam_tmpl.ctx_rule(run, ctx)
     fam_tmpl.concat_predicates(run, ctx)
